@@ -114,6 +114,23 @@ def run_case(ctx, res, p):
         res.oracle_fail("k_grad(x)(y) is not shaped (n_x, n_y, n_features)", p,
                         detail={"shape": list(G.shape), "expected": [n, m, d]}, signature="C11:shape")
         return
+    # --- a stationary leaf kernel is Lipschitz: |dk/dy| <= sup|phi'| / ls <= 1 / ls for all five profiles, for EVERY pair -
+    # also the ill-conditioned ones (near-coincident points far from the origin) that the comparisons below have to skip
+    # (fixed defect: the distance was taken from the cancelling expanded form, delta / distance reached 1e6)
+    lsof = lambda t: float(t[2] if t[0] == "RQ" else t[1])
+    stat = ("M32", "M52", "EQ", "EX", "RQ")
+    if tree[0] in stat or (tree[0] == "MUL" and tree[1][0] in stat and tree[2][0] in stat):
+        # product of two stationary kernels (values in [0, 1]): |grad| <= 1/ls1 + 1/ls2, written as one effective 1/ls
+        ls_ = lsof(tree) if tree[0] in stat else 1.0 / (1.0 / lsof(tree[1]) + 1.0 / lsof(tree[2]))
+        with np.errstate(all="ignore"):
+            gn = np.sqrt(np.sum(np.where(np.isfinite(G), G, 0.0) ** 2, axis=2))
+        ratio = float(np.max(gn, initial=0.0) * ls_)
+        res.dev("leaf_gradient_norm_over_lipschitz_bound", ratio)
+        if ratio > 1.001:
+            i, j = np.unravel_index(np.argmax(gn), gn.shape)
+            res.oracle_fail("k_grad of a stationary kernel exceeds the kernel's Lipschitz bound 1/ls", p,
+                            detail={"i": int(i), "j": int(j), "norm": float(gn[i, j]), "bound": 1.0 / ls_},
+                            signature="C11:lipschitz:" + tree[0])
     # --- finite everywhere
     bad_pairs = np.zeros((n, m), bool)
     if not np.all(np.isfinite(G)):
@@ -200,6 +217,13 @@ def run_case(ctx, res, p):
                 devsys = np.abs(G - A) / (sysb + tol)
             dev = np.where(well[..., None], dev, 0.0)
             dev = np.where(np.isfinite(A), dev, np.where(well[..., None], np.inf, 0.0))
+            # k_grad takes the distance from the differences y - x, cov.k (and so its autodiff) from the expanded form
+            # xx - 2xy + yy, which cancels for points far from the origin: a disagreement is explained when BOTH values lie in the
+            # closed-form interval, whose width is exactly that cancellation (fix 'distance_grad from differences')
+            with np.errstate(all="ignore"):
+                explained = go.inside(A, iv["lo"], iv["hi"], iv["mass"]) & go.inside(G, iv["lo"], iv["hi"], iv["mass"])
+            res.count("autodiff_entries_explained_by_cancellation_interval", int(np.sum(explained & (dev > 1.0))))
+            dev = np.where(explained, np.minimum(dev, 1.0), dev)
             res.dev("analytic_vs_autodiff_excess_over_noise_tol", np.max(dev, initial=0))
             if stream in ("natpow", "regress"):
                 res.dev("natpow:analytic_vs_autodiff_excess_over_noise_tol", np.max(dev, initial=0))
@@ -553,6 +577,16 @@ def run(ctx, res):
     # grid of natural powers over bases of any sign
     run_natpow(ctx, res, quick)
     res.count("natpow_wall_s", int(time.time() - t0))
+    # near-coincident pairs far from the origin, on the one leaf whose gradient does not vanish at distance 0 (Exponential) and on
+    # a product with it: the gradient stays within the kernel's Lipschitz bound (fixed defect of distance_grad, see above)
+    for d_, off_ in ((2, 1e2), (5, 1e3), (25, 1e2)):
+        Xn = off_ * rng.choice([-1.0, 1.0], size=d_) + rng.normal(size=(4, d_))
+        u_ = rng.normal(size=(4, d_))
+        Yn = Xn + (10.0 ** rng.uniform(-8, -5, size=(4, 1))) * u_ / np.linalg.norm(u_, axis=1, keepdims=True)
+        for tree_ in (("EX", loguniform(rng, 0.5, 2.0), ("AN",)),
+                      ("MUL", ("EX", 1.0, ("AN",)), ("M52", 3.0, ("AN",)), ("AN",))):
+            # (no finite differences here: the separation is far below any usable step and Exponential has a kink at 0)
+            run_case(ctx, res, {"op": "kgrad", "stream": "adv", "adv": "offset-coincident", "tree": tree_, "X": Xn, "Y": Yn})
     # bounded-exhaustive skeleton: every leaf kind x every active_dims form (plus repeated-index lists)
     ad_forms = ["AN", "AI", "AIneg", "AL", "AM", "AS"]
     combos = [(k, f) for k in LEAVES for f in ad_forms + ["ALrep"]]
